@@ -1,5 +1,6 @@
 import PyatvModel.C04.Opack.Lemmas
 import PyatvModel.C04.Opack.RefLemmas
+import PyatvModel.C04.Opack.Fuel
 import PyatvModel.Gen.C04OpackConsts
 /-
 C04 (OPACK part) — wire codec faithful to its format.
@@ -17,6 +18,8 @@ codec from the format documentation: `PyatvModel/C04/Opack/Ref.lean`.
 * `tables_in_step`    after encoding and decoding, the decoder's object list holds exactly
                       the encodings of the encoder's object list, in the same order
                       (the invariant `InStep` threaded through `Lemmas.rt_value/rt_list/rt_pairs`);
+* `unpack_never_out_of_budget`  the decoder model's recursion budget is invisible: `unpack`
+                      never answers the model-only error `fuel`, on ANY byte string;
 * `pack_eq_refPack_partial`  the bytes are those of the documented format, for all values
                       whose data (`bytes`) objects are shorter than 64 KiB;
 * `pack_eq_refPack_counterexample`  … and NOT for a 64 KiB data object: documentation says
@@ -60,6 +63,11 @@ theorem tables_in_step (v : Value) (h : Packable v) :
   obtain ⟨⟨bs, te⟩, hr⟩ := packAux_total v h []
   obtain ⟨td', hs, hdec⟩ := rt_value v h [] [] inStep_nil bs te hr (bs.length + 1) (by omega)
   exact ⟨bs, te, td', hr, by simpa using hdec [], hs.1⟩
+
+/-- the model's recursion budget (`length + 1`) always suffices: no stream makes the model of
+    `unpack` differ from the code by running out of it -/
+theorem unpack_never_out_of_budget (data : Bytes) : unpack data ≠ .error .fuel :=
+  unpack_ne_fuel data
 
 /-- **Documented format** (partial: data objects below 64 KiB) -/
 theorem pack_eq_refPack_partial (v : Value) (h : Packable v) (hs : dataShort v = true) :
